@@ -91,6 +91,47 @@ pub fn run(ctx: &Ctx) -> Outcome {
         let ls = LangSet::new();
         let lex = ls.lexicon("en");
         let mut rng = Rng::derive(ctx.seed, "C18", w as u64);
+        // bounded exhaustive part: every English text of up to 4 (thorough: 5) words over the small alphabet plus `o`, `O`
+        // and the article `a`
+        {
+            let mut alpha = crate::streams::small_alphabet(lex);
+            for extra in ["o", "O", "a"] {
+                if !alpha.iter().any(|w| w == extra) {
+                    alpha.push(extra.to_string());
+                }
+            }
+            let k = alpha.len() as u64;
+            let filler = lex.fillers.last().cloned().unwrap_or_default();
+            let mut visited = 0u64;
+            'outer: for depth in 1..=(if ctx.quick() { 4u32 } else { 5u32 }) {
+                let total = k.pow(depth);
+                let mut idx = w as u64;
+                while idx < total {
+                    if visited % 2048 == 0 && ctx.elapsed() > ctx.budget_s * 0.4 {
+                        rep.count("exhaustive_enumeration_cut_by_budget");
+                        break 'outer;
+                    }
+                    let toks = crate::streams::nth_small_stream(&alpha, depth, idx);
+                    idx += nw as u64;
+                    visited += 1;
+                    if !toks.iter().any(|t| t.lower == "o") {
+                        continue;
+                    }
+                    let s: String = toks.iter().map(|t| t.text.as_str()).collect::<Vec<_>>().join(" ");
+                    let v = check(&ls, &s, &filler);
+                    rep.eval(hash_bytes(&[s.as_bytes()]), v.n_o > 0 && !v.circular);
+                    if v.circular {
+                        rep.count("skipped_circular_o_next_to_o");
+                    }
+                    rep.add("o_tokens_judged", if v.circular { 0 } else { v.n_o as u64 });
+                    rep.add("o_tokens_next_to_a_number_word", v.qualifying as u64);
+                    rep.count("exhaustive_small_alphabet_texts_with_o");
+                    if let Some(msg) = v.failure {
+                        rep.violation("en:o", jobj! {"kind" => "o", "lang" => "en", "text" => s.as_str(), "filler" => filler.as_str()}, msg);
+                    }
+                }
+            }
+        }
         for i in 0..(n_texts / nw as u64) {
             if i % 256 == 0 && ctx.over_budget() {
                 break;
@@ -115,7 +156,7 @@ pub fn run(ctx: &Ctx) -> Outcome {
     if !ctx.quick() {
         super::legs::fuzz_leg(ctx, &mut rep, 45);
     }
-    let rule = "cases = English texts of 1..9 tokens over {o, O, number words, fillers, linking words, punctuation} joined by ASCII or Unicode whitespace; for each o the nearest non-whitespace neighbours are classified by the running library (is it accepted on a fresh builder?); the text with qualifying o -> zero and other o -> filler must give identical occurrences at thresholds 0,5,10; texts in which an o has only other o's as number-like neighbours are skipped (circular); non-trivial = text containing a judged o";
+    let rule = "cases = every English text of 1..4 (thorough 1..5) words over a 19-word alphabet (one word per grammar class, `o`, `O`, `a`) that contains an o (counter exhaustive_small_alphabet_texts_with_o), and English texts of 1..9 tokens over {o, O, number words, fillers, linking words, punctuation} joined by ASCII or Unicode whitespace; for each o the nearest non-whitespace neighbours are classified by the running library (is it accepted on a fresh builder?); the text with qualifying o -> zero and other o -> filler must give identical occurrences at thresholds 0,5,10; texts in which an o has only other o's as number-like neighbours are skipped (circular); non-trivial = text containing a judged o";
     finish(ctx, rep, rule, &["'is a number word' is asked of the running library through LangInterpreter::apply on a fresh builder"], vec![])
 }
 
